@@ -358,6 +358,26 @@ def toGraph (l : Loaded) (size : Nat) : Graph :=
       | some o => o.node
       | none => { typeId := [], args := [] }) }
 
+/-- the loaded objects seen again as a configuration graph with classes: what a second
+    `__get_objects__` (writing a graph that was itself loaded) works on.  The model's writer reads
+    neither `sealed` nor the `loaded` flag of a configuration: nothing of a loaded configuration is
+    left out. -/
+def regraph (l : Loaded) (size : Nat) : SGraph :=
+  { g := toGraph l size,
+    cname := (List.range size).map (fun n => match lookupObj n l with
+      | some o => o.cname
+      | none => []) }
+
+/-- write, load, write the loaded graph again, load again. -/
+def reloadTwice (fl : Flags) (lib : List Cls) (sg : SGraph) (roots : List Nat) : Except Err (Loaded × List Def × Loaded) :=
+  match load fl lib (serialize fl lib sg roots) with
+  | .error e => .error e
+  | .ok l1 =>
+    let defs2 := serialize fl lib (regraph l1 sg.g.size) roots
+    match load fl lib defs2 with
+    | .error e => .error e
+    | .ok l2 => .ok (l1, defs2, l2)
+
 /-! ### vocabulary of the theorems -/
 
 mutual
